@@ -86,3 +86,6 @@ Definition enumerate_l (l : list N) : list (N * N) := enumerate_from 0 l.
 (* slice.get(n..) *)
 Definition slice_from_opt (l : list N) (n : N) : option (list N) :=
   if n <=? N.of_nat (length l) then Some (skipn (N.to_nat n) l) else None.
+
+(* slice.last() *)
+Definition last_opt (l : list N) : option N := nth_error l (length l - 1).
